@@ -103,6 +103,8 @@ func (s *space) precompute() {
 
 func hx(b []byte) string { return fmt.Sprintf("%x", b) }
 
+var bigZero = big.NewInt(0)
+
 var two255m1 = new(big.Int).Sub(new(big.Int).Lsh(big.NewInt(1), 255), big.NewInt(1))
 
 // try runs a piece of library code; a panic is a violation of the entry point
@@ -151,6 +153,16 @@ func checkR(w *mc.W, key string, gotf func() *curve.RistrettoPoint, want ref.Poi
 			w.Fail(key, fmt.Sprintf("%s: ristretto encoding got %x want %x", desc(), genc, wenc), cas)
 		}
 	})
+}
+
+// unchanged runs f (library calls and their checks) and then demands that every input object - scalars,
+// points, expanded points, tables, including everything they point to - is bit-identical to what it was.
+func unchanged(w *mc.W, key string, desc func() string, cas interface{}, inputs []interface{}, f func()) {
+	snap := ptalph.Snap(inputs...)
+	f()
+	if snap.Changed(inputs...) {
+		w.Fail(key+"/input-modified", desc()+": an input (scalar, point, expanded point or table) was modified by the call", cas)
+	}
 }
 
 func cp(p *curve.EdwardsPoint) *curve.EdwardsPoint { return curve.NewEdwardsPoint().Set(p) }
@@ -441,6 +453,12 @@ func run(c *mc.Ctx) {
 			return func() string { return fmt.Sprintf("%s(%s, 0x%x)", op, pname(p), sv) }
 		}
 		nt := unred(k.si) || special(p.e)
+		snap := ptalph.Snap(sc, p.P)
+		defer func() {
+			if snap.Changed(sc, p.P, p.tbl) {
+				w.Fail("scalar-multiplication/input-modified", d("Mul / MulBasepoint")()+": the scalar, the point or the table was modified", cas)
+			}
+		}()
 		checkPt(w, "EdwardsPoint.Mul", func() *curve.EdwardsPoint { return nr().Mul(p.P, sc) }, want, d("Mul"), cas)
 		w.Eval("mul/Mul", nt)
 		if c.Thorough || s.isCore[k.si] || p.rep == 0 {
@@ -449,11 +467,15 @@ func run(c *mc.Ctx) {
 			w.Eval("mul/Mul(aliased receiver)", nt)
 		}
 		if c.Thorough || s.isCore[k.si] || k.si%2 == 0 {
+			try(w, "NewEdwardsBasepointTable", cas, func() { snap = ptalph.Snap(sc, p.P, p.table()) })
 			checkPt(w, "EdwardsPoint.MulBasepoint/NewEdwardsBasepointTable", func() *curve.EdwardsPoint { return nr().MulBasepoint(p.table(), sc) }, want, d("MulBasepoint(NewEdwardsBasepointTable"), cas)
+			// the receiver is the very point the table was built from
+			checkPt(w, "EdwardsPoint.MulBasepoint/alias", func() *curve.EdwardsPoint { r := cp(p.P); return r.MulBasepoint(p.table(), sc) }, want, d("P.MulBasepoint(table(P), s)"), cas)
 			w.Eval("mul/MulBasepoint(table(P))", nt)
 		}
 		if s.elems[p.e].In2E() && (c.Thorough || s.isCore[k.si] || p.rep == 0) {
 			checkR(w, "RistrettoPoint.Mul", func() *curve.RistrettoPoint { return nrr().Mul(rp(p.P), sc) }, want, d("ristretto Mul"), cas)
+			checkR(w, "RistrettoPoint.Mul/alias", func() *curve.RistrettoPoint { r := rp(p.P); return r.Mul(r, sc) }, want, d("ristretto p.Mul(p,s)"), cas)
 			w.Eval("mul/ristretto.Mul", nt)
 			if s.isCore[k.si] && p.rep%2 == 0 {
 				var tb *curve.RistrettoBasepointTable
@@ -516,6 +538,13 @@ func run(c *mc.Ctx) {
 		}
 		nt := unred(k.ai) || unred(k.bi) || special(p.e)
 		a, b := s.scs[k.ai], s.scs[k.bi]
+		var snap ptalph.Snapshot
+		try(w, "NewExpandedEdwardsPoint", cas, func() { snap = ptalph.Snap(a, b, p.P, p.expanded()) })
+		defer func() {
+			if snap != nil && snap.Changed(a, b, p.P, p.x) {
+				w.Fail("double-base/input-modified", d("DoubleScalarMulBasepointVartime / Expanded")()+": a scalar, the point or the expanded point was modified", cas)
+			}
+		}()
 		checkPt(w, "EdwardsPoint.DoubleScalarMulBasepointVartime", func() *curve.EdwardsPoint { return nr().DoubleScalarMulBasepointVartime(a, p.P, b) }, want, d("DoubleScalarMulBasepointVartime"), cas)
 		w.Eval("double/plain", nt)
 		if c.Thorough || i%2 == 0 {
@@ -527,6 +556,7 @@ func run(c *mc.Ctx) {
 		w.Eval("double/expanded", nt)
 		if s.elems[p.e].In2E() && (c.Thorough || i%2 == 1) {
 			checkR(w, "RistrettoPoint.DoubleScalarMulBasepointVartime", func() *curve.RistrettoPoint { return nrr().DoubleScalarMulBasepointVartime(a, rp(p.P), b) }, want, d("ristretto DoubleScalarMulBasepointVartime"), cas)
+			checkR(w, "RistrettoPoint.DoubleScalarMulBasepointVartime/alias", func() *curve.RistrettoPoint { r := rp(p.P); return r.DoubleScalarMulBasepointVartime(a, r, b) }, want, d("ristretto A.DoubleScalarMulBasepointVartime(a,A,b)"), cas)
 			checkR(w, "RistrettoPoint.ExpandedDoubleScalarMulBasepointVartime", func() *curve.RistrettoPoint {
 				return nrr().ExpandedDoubleScalarMulBasepointVartime(a, curve.NewExpandedRistrettoPoint(rp(p.P)), b)
 			}, want, d("ristretto ExpandedDoubleScalarMulBasepointVartime"), cas)
@@ -582,6 +612,8 @@ func run(c *mc.Ctx) {
 	})
 
 	lap("msm-small-ristretto")
+	s.msmSpecial(c, evenPts)
+	lap("msm-special")
 	// ---------------------------------------------------------------- (v) multiscalar at the algorithm thresholds
 	s.large(c)
 	lap("msm-large")
@@ -650,91 +682,4 @@ func splits(n int) [][]bool {
 		}
 	}
 	return out
-}
-
-// msmCase runs every multiscalar routine on n terms chosen from the alphabets.
-func (s *space) msmCase(w *mc.W, n int, scIdx func(t int) int, ptIdx func(t int) int, ristretto bool) {
-	var scs []*scalar.Scalar
-	var pts []*lpt
-	var terms []ref.Point
-	desc := ""
-	nt := n == 0
-	for t := 0; t < n; t++ {
-		si, p := scIdx(t), s.pts[ptIdx(t)]
-		scs = append(scs, s.scs[si])
-		pts = append(pts, p)
-		terms = append(terms, s.refMul(p.e, si))
-		desc += fmt.Sprintf("[0x%x](%s/%s) ", s.full[si], s.elems[p.e].Name, ptalph.RepName[p.rep])
-		nt = nt || s.full[si].Cmp(ref.L) >= 0 || s.tors[p.e] || s.elems[p.e].IsIdentity()
-	}
-	want := refgrp.Sum(terms...)
-	cas := map[string]string{"terms": desc}
-	d := func(op string) func() string { return func() string { return op + ": " + desc } }
-	lp := make([]*curve.EdwardsPoint, n)
-	for t, p := range pts {
-		lp[t] = p.P
-	}
-	if !ristretto {
-		checkPt(w, "EdwardsPoint.MultiscalarMul", func() *curve.EdwardsPoint { return nr().MultiscalarMul(scs, lp) }, want, d("MultiscalarMul"), cas)
-		w.Eval(fmt.Sprintf("msm/MultiscalarMul/n=%d", n), nt)
-		checkPt(w, "EdwardsPoint.MultiscalarMulVartime", func() *curve.EdwardsPoint { return nr().MultiscalarMulVartime(scs, lp) }, want, d("MultiscalarMulVartime"), cas)
-		w.Eval(fmt.Sprintf("msm/MultiscalarMulVartime/n=%d", n), nt)
-		if n > 0 { // receiver is one of the inputs
-			lp2 := append([]*curve.EdwardsPoint{}, lp...)
-			r := cp(lp[n-1])
-			lp2[n-1] = r
-			checkPt(w, "EdwardsPoint.MultiscalarMulVartime/alias", func() *curve.EdwardsPoint { return r.MultiscalarMulVartime(scs, lp2) }, want, d("p.MultiscalarMulVartime(.., p)"), cas)
-			lp2 = append([]*curve.EdwardsPoint{}, lp...)
-			r = cp(lp[0])
-			lp2[0] = r
-			checkPt(w, "EdwardsPoint.MultiscalarMul/alias", func() *curve.EdwardsPoint { return r.MultiscalarMul(scs, lp2) }, want, d("p.MultiscalarMul(p, ..)"), cas)
-		}
-		for _, sp := range splits(n) {
-			var ss, ds []*scalar.Scalar
-			var spn []*curve.ExpandedEdwardsPoint
-			var dpn []*curve.EdwardsPoint
-			try(w, "NewExpandedEdwardsPoint", cas, func() {
-				for t := 0; t < n; t++ {
-					if sp[t] {
-						ss = append(ss, scs[t])
-						spn = append(spn, pts[t].expanded())
-					} else {
-						ds = append(ds, scs[t])
-						dpn = append(dpn, lp[t])
-					}
-				}
-			})
-			checkPt(w, "EdwardsPoint.ExpandedMultiscalarMulVartime", func() *curve.EdwardsPoint { return nr().ExpandedMultiscalarMulVartime(ss, spn, ds, dpn) }, want,
-				d(fmt.Sprintf("ExpandedMultiscalarMulVartime(static=%d, dynamic=%d)", len(ss), len(ds))), cas)
-			w.Eval(fmt.Sprintf("msm/ExpandedMultiscalarMulVartime/n=%d", n), nt)
-		}
-		return
-	}
-	rpn := make([]*curve.RistrettoPoint, n)
-	for t := range lp {
-		rpn[t] = rp(lp[t])
-	}
-	checkR(w, "RistrettoPoint.MultiscalarMul", func() *curve.RistrettoPoint { return nrr().MultiscalarMul(scs, rpn) }, want, d("ristretto MultiscalarMul"), cas)
-	w.Eval(fmt.Sprintf("msm/ristretto.MultiscalarMul/n=%d", n), nt)
-	checkR(w, "RistrettoPoint.MultiscalarMulVartime", func() *curve.RistrettoPoint { return nrr().MultiscalarMulVartime(scs, rpn) }, want, d("ristretto MultiscalarMulVartime"), cas)
-	w.Eval(fmt.Sprintf("msm/ristretto.MultiscalarMulVartime/n=%d", n), nt)
-	for _, sp := range splits(n) {
-		var ss, ds []*scalar.Scalar
-		var spn []*curve.ExpandedRistrettoPoint
-		var dpn []*curve.RistrettoPoint
-		try(w, "NewExpandedRistrettoPoint", cas, func() {
-			for t := 0; t < n; t++ {
-				if sp[t] {
-					ss = append(ss, scs[t])
-					spn = append(spn, curve.NewExpandedRistrettoPoint(rpn[t]))
-				} else {
-					ds = append(ds, scs[t])
-					dpn = append(dpn, rpn[t])
-				}
-			}
-		})
-		checkR(w, "RistrettoPoint.ExpandedMultiscalarMulVartime", func() *curve.RistrettoPoint { return nrr().ExpandedMultiscalarMulVartime(ss, spn, ds, dpn) }, want,
-			d(fmt.Sprintf("ristretto ExpandedMultiscalarMulVartime(static=%d, dynamic=%d)", len(ss), len(ds))), cas)
-		w.Eval(fmt.Sprintf("msm/ristretto.ExpandedMultiscalarMulVartime/n=%d", n), nt)
-	}
 }
